@@ -8,6 +8,7 @@ import (
 	"fmt"
 	"github.com/jackc/pgx/v5/pgtype"
 	"runtime"
+	"runtime/metrics"
 	"strings"
 	"time"
 
@@ -373,6 +374,56 @@ func (ch c04) Run(c *core.Ctx) {
 					c.Count("special_request_packets", 1)
 					c.Eval(fmt.Sprintf("special %d +%d %s", code, k, pos), true)
 				}
+			}
+		}
+		probe()
+	}
+	// ---- floods of negotiation packets on one connection (30000 GSSENCRequest / SSLRequest packets, the
+	// single-byte answers drained): the connection ends or goes on, what it holds does not grow with the
+	// number of packets it has seen (goroutine stacks included) ----
+	if c.Batch == 2%nb && c.Begin(860000000) {
+		stacks := []metrics.Sample{{Name: "/memory/classes/heap/stacks:bytes"}, {Name: "/memory/classes/heap/objects:bytes"}}
+		held := func() (uint64, uint64) {
+			runtime.GC()
+			metrics.Read(stacks)
+			return stacks[0].Value.Uint64(), stacks[1].Value.Uint64()
+		}
+		for _, kind := range []string{"gssenc", "ssl", "alternating"} {
+			conn := tr.NewConn(c04sess())
+			conn.NoLog = true
+			envs.plain.L.DialConn(conn)
+			s0, h0 := held()
+			const flood = 30000
+			answered := 0
+			for i := 0; i < flood; i += 500 {
+				var b []byte
+				for j := 0; j < 500; j++ {
+					switch {
+					case kind == "gssenc" || kind == "alternating" && j%2 == 0:
+						b = append(b, pg.StartupRaw(pg.VerGSSENC, nil)...)
+					default:
+						b = append(b, pg.SSLRequest()...)
+					}
+				}
+				conn.Send(b)
+				closed, ok := conn.Quiesce()
+				answered = len(conn.Out())
+				if closed || !ok {
+					break
+				}
+			}
+			s1, h1 := held()
+			c.Count("negotiation_packet_floods", 1)
+			c.Count("negotiation_packets_answered", int64(answered))
+			c.Eval("flood "+kind, true)
+			if grow := int64(s1) - int64(s0) + int64(h1) - int64(h0); answered > 1000 && grow > 8<<20 {
+				c.Violate("retained", "memory held by a connection grows with the number of negotiation packets it has answered", fmt.Sprintf("%s flood: %d packets answered on one connection, goroutine stacks grew by %d KiB, heap objects by %d KiB (connection still open and idle)", kind, answered, (int64(s1)-int64(s0))>>10, (int64(h1)-int64(h0))>>10), map[string]any{"flood": kind})
+			}
+			conn.CloseWrite()
+			if !conn.WaitClosed() {
+				_, lib := core.ClassifyHang()
+				c.Violate("wedge", "connection handling does not end after a flood of negotiation packets", strings.Join(lib, "; "), map[string]any{"flood": kind})
+				c.Finish()
 			}
 		}
 		probe()
